@@ -14,7 +14,7 @@ inductive Enc
   | range (f l s : Nat)      -- `seq(f,l,s)`, `fseq<f,l,s>`, `iseq<f,l,s>`
   | toEnd (f k s : Nat)      -- `seq(f,last-k,s)` (`last` is the integer -1): from `f` to below `n-k`; `all` = `toEnd 0 0 1`
   | fromEnd (j k s : Nat)    -- `seq(last-j,last-k,s)`: from `n-j` to below `n-k`
-  | idx (i : Int)            -- a plain integer; negative = counted from the end (`fix<i>`, `i >= -1`, for fixed views)
+  | idx (i : Int)            -- a plain integer (`seq(int i)`, `fix<i>`); negative = counted from the end
 deriving Repr, DecidableEq
 
 /-- the three integers the spelling puts into `seq` / `fseq` -/
